@@ -12,6 +12,7 @@ CONSTANTS
   AllowStop = FALSE
   AllowCtrlC = FALSE
   AllowError = TRUE
+  AliveCheck = TRUE
 INVARIANT ProtocolOK
 INVARIANT ClosedAtEnd
 INVARIANT NoProblemLost
